@@ -143,7 +143,58 @@ func c05GenTriple(s Src) c05Case {
 // c05GenNear: generated (not pooled) operands and a second operand derived from the first
 // by a small, meaning-laden step: the same value in another spelling (scale, offset,
 // Integer/Decimal), a neighbour one unit in the last place away, a coarser precision.
+// c05ZeroRun: how many trailing zeros a spelling carries — mostly a few, sometimes more than
+// a machine word of digits, sometimes beyond any fixed rescaling limit
+func c05ZeroRun(s Src) int {
+	switch s.Intn(10) {
+	case 0:
+		return s.Range(18, 40)
+	case 1:
+		return s.Range(300, 340)
+	case 2, 3:
+		return s.Range(990, 1700)
+	}
+	return s.Range(0, 12)
+}
+
+// c05Spelling: the number m·10^-k spelt with z further trailing zeros
+func c05Spelling(m string, z int) Val {
+	if !strings.Contains(m, ".") {
+		if z == 0 {
+			return iv64s(m)
+		}
+		return dv(m + "." + strings.Repeat("0", z))
+	}
+	return dv(m + strings.Repeat("0", z))
+}
+
+func iv64s(m string) Val {
+	n, err := strconv.ParseInt(m, 10, 64)
+	if err != nil || n > 2147483647 || n < -2147483648 {
+		return dv(m + ".0")
+	}
+	return iv(n)
+}
+
 func c05GenNear(s Src) c05Case {
+	if s.Prob(8) {
+		// one number (or two a hair apart) in two spellings of very different scale
+		m := pickOne(s, []string{"0", "0", "1", "-1", "0.5", "-0.0", "10", strconv.Itoa(s.Range(-1000, 1000)), strconv.FormatInt(int64(s.Int32()), 10), strconv.Itoa(s.Range(-3, 3)) + "." + s.Str(digits, 1, 6)})
+		a, b := c05Spelling(m, c05ZeroRun(s)), c05Spelling(m, c05ZeroRun(s))
+		if s.Prob(20) { // a hair larger in magnitude, far down
+			z := strings.Repeat("0", c05ZeroRun(s)) + "1"
+			if strings.Contains(m, ".") {
+				b = dv(m + z)
+			} else {
+				b = dv(m + "." + z)
+			}
+		}
+		c := c05Case{Kind: "pair", A: a, B: b, LitA: s.Bool(), LitB: s.Bool()}
+		if s.Bool() {
+			c.A, c.B = c.B, c.A
+		}
+		return c
+	}
 	a := c05GenVal(s)
 	b := a
 	switch a.K {
